@@ -15,7 +15,6 @@ Definition sess_of (st : state) (c : conn) : option skey := alookup N.eqb c (st_
 Record Core (st : state) : Prop := {
   i_wf : wf st;
   i_act_nd : NoDup (map fst (st_active st));
-  i_closing : st_closing st = false;
   (* a connection that holds a session is live, the session is its own temporary one or the stored
      one of its client id, and that session names it as active *)
   i_s1 : forall c k, sess_of st c = Some k ->
@@ -37,18 +36,13 @@ Record Core (st : state) : Prop := {
   i_closed : forall c, mem_n c (st_closed st) = true -> mem_n c (st_term st) = true
 }.
 
-(* every connection that called Setup holds a session, is terminated, or is the one waiting *)
-Definition Fin (st : state) : Prop :=
-  forall c, alookup N.eqb c (st_cid st) <> None ->
-    sess_of st c <> None \/ mem_n c (st_term st) = true \/ (exists p, st_pending st = Some p /\ p_conn p = c).
-
 Definition Pend (st : state) : Prop :=
   forall p, st_pending st = Some p ->
     p_id p <> [] /\ alookup N.eqb (p_conn p) (st_cid st) = Some (p_id p) /\
     sess_of st (p_conn p) = None /\ mem_n (p_conn p) (st_term st) = false /\
     (forall c k, sess_of st c = Some k -> cid_of st c = p_id p -> c = p_old p).
 
-Definition Inv (st : state) : Prop := Core st /\ Fin st /\ Pend st.
+Definition Inv (st : state) : Prop := Core st /\ Pend st.
 
 (* ------------------------------------------------------------------ small facts *)
 Lemma mem_add_n c x l : mem_n c (add_n x l) = (c =? x) || mem_n c l.
@@ -72,11 +66,10 @@ Proof. intros H. apply N.eqb_neq; exact H. Qed.
 
 Lemma inv_init cap : Inv (init cap).
 Proof.
-  split; [|split].
+  split.
   - constructor.
     + apply wf_init.
     + constructor.
-    + reflexivity.
     + intros c k H; discriminate.
     + intros k s c H. destruct k; discriminate.
     + intros id c H; discriminate.
@@ -86,7 +79,6 @@ Proof.
     + intros c s H; discriminate.
     + intros c [H|H]; [exfalso; apply H; reflexivity|discriminate].
     + intros c H; discriminate.
-  - intros c H. exfalso; apply H; reflexivity.
   - intros p H. discriminate.
 Qed.
 
@@ -119,17 +111,16 @@ Qed.
 
 Lemma inv_frame st st' : Inv st -> frame st st' -> Inv st'.
 Proof.
-  intros (C & Fi & P) F.
+  intros (C & P) F.
   assert (Ecid : forall c, cid_of st' c = cid_of st c) by (intros c; unfold cid_of; rewrite (f_cid _ _ F); reflexivity).
   assert (Esess : forall c, sess_of st' c = sess_of st c) by (intros c; unfold sess_of; rewrite (f_sess _ _ F); reflexivity).
   assert (Est : forall id, alookup bytes_eqb id (st_stored st') <> None <-> alookup bytes_eqb id (st_stored st) <> None).
   { intros id. pose proof (f_act _ _ F (KStored id)) as X. cbn [get_session] in X.
     destruct (alookup bytes_eqb id (st_stored st')), (alookup bytes_eqb id (st_stored st)); cbn in X; try discriminate; split; congruence. }
-  split; [|split].
+  split.
   - constructor.
     + exact (f_wf _ _ F).
     + rewrite (f_active _ _ F). exact (i_act_nd _ C).
-    + rewrite (f_closing _ _ F). exact (i_closing _ C).
     + intros c k H. rewrite Esess in H. destruct (i_s1 _ C c k H) as (H1 & H2 & s & G & A).
       rewrite (f_term _ _ F), Ecid. split; [exact H1|]. split; [exact H2|].
       destruct (frame_get' _ _ _ _ F G) as [s' [G' A']]. exists s'; split; [exact G'|congruence].
@@ -142,7 +133,6 @@ Proof.
     + intros c s' G. destruct (frame_get _ _ (KTemp c) s' F G) as [s [G0 A0]]. rewrite <- A0. exact (i_t1 _ C c s G0).
     + intros c H. rewrite Esess, (f_term _ _ F) in H. rewrite (f_cid _ _ F). exact (i_cid _ C c H).
     + intros c H. rewrite (f_term _ _ F). destruct (f_closed _ _ F c H) as [H1|H1]; [exact (i_closed _ C c H1)|exact H1].
-  - intros c H. rewrite (f_cid _ _ F) in H. rewrite Esess, (f_term _ _ F), (f_pending _ _ F). exact (Fi c H).
   - intros p H. rewrite (f_pending _ _ F) in H. destruct (P p H) as (P1 & P2 & P3 & P4 & P5).
     rewrite (f_cid _ _ F), Esess, (f_term _ _ F). repeat split; auto.
     intros c k Hs Hc. rewrite Esess in Hs. rewrite Ecid in Hc. exact (P5 c k Hs Hc).
@@ -187,9 +177,7 @@ Record PreFinish (st : state) (c : conn) (id : bytes) : Prop := {
   pf_cid : alookup N.eqb c (st_cid st) = Some id;
   pf_nosess : sess_of st c = None;
   pf_noterm : mem_n c (st_term st) = false;
-  pf_free : forall c' k, sess_of st c' = Some k -> cid_of st c' <> id;    (* no live connection with this client id *)
-  pf_fin : forall c', alookup N.eqb c' (st_cid st) <> None -> c' <> c ->
-             sess_of st c' <> None \/ mem_n c' (st_term st) = true
+  pf_free : forall c' k, sess_of st c' = Some k -> cid_of st c' <> id     (* no live connection with this client id *)
 }.
 
 Lemma pf_active_none st c id : PreFinish st c id -> alookup bytes_eqb id (st_active st) = None.
@@ -253,11 +241,10 @@ Proof.
   { intros c' k Hc Hs. destruct (i_s1 _ C c' k Hs) as (_ & Sh & _).
     pose proof (pf_free _ _ _ PF c' k Hs) as Hfree.
     destruct Sh as [->|[-> Hn]]; destruct HK as [->| ->]; split; try discriminate; try congruence. }
-  split; [|split].
+  split.
   - constructor.
     + exact W'.
     + rewrite Eact. apply (nodup_aset bytes_eqb bytes_eqb_eq). exact (i_act_nd _ C).
-    + rewrite Eclosing. exact (i_closing _ C).
     + (* i_s1 *)
       intros c' k H. rewrite Sess' in H. rewrite Eterm, Ecid_of.
       destruct (c' =? c) eqn:E.
@@ -319,8 +306,6 @@ Proof.
       * apply N.eqb_eq in E; subst c'. rewrite (pf_cid _ _ _ PF); discriminate.
       * exact (i_cid _ C c' H).
     + intros c' H. rewrite Eclosed in H. rewrite Eterm. exact (i_closed _ C c' H).
-  - intros c' H. rewrite Ecid in H. rewrite Sess', Eterm. destruct (c' =? c) eqn:E; [left; discriminate|].
-    apply N.eqb_neq in E. destruct (pf_fin _ _ _ PF c' H E) as [X|X]; auto.
   - intros p H. rewrite Epend in H; discriminate.
 Qed.
 
@@ -385,7 +370,7 @@ Proof.
   intros C P H. destruct (fresh_conn st c C H) as [NS NT].
   assert (Same : forall x, sess_of st x <> None -> cid_of (with_cid st c id) x = cid_of st x).
   { intros x Hx. rewrite cid_of_with. destruct (x =? c) eqn:E; [|reflexivity]. apply N.eqb_eq in E; subst x. congruence. }
-  constructor; try exact (i_wf _ C); try exact (i_act_nd _ C); try exact (i_closing _ C);
+  constructor; try exact (i_wf _ C); try exact (i_act_nd _ C);
     try exact (i_s2 _ C); try exact (i_st _ C); try exact (i_t1 _ C); try exact (i_closed _ C).
   - intros x k Hs. change (sess_of st x = Some k) in Hs. rewrite (Same x) by congruence. exact (i_s1 _ C x k Hs).
   - intros i x Ha. change (alookup bytes_eqb i (st_active st) = Some x) in Ha.
@@ -404,7 +389,7 @@ Lemma inv_setup_empty st c :
           (st_retained st1) (st_closing st1) (aset N.eqb c (KTemp c) (st_sess st1)) (st_cid st1)
           (st_dying st1) (st_closed st1) (st_term st1) None).
 Proof.
-  intros (C0 & Fi & _) P H st1.
+  intros (C0 & _) P H st1.
   pose proof (core_with_cid st c [] C0 P H) as C. fold st1 in C.
   destruct (fresh_conn st c C0 H) as [NS NT].
   assert (NS1 : sess_of st1 c = None) by exact NS.
@@ -419,12 +404,11 @@ Proof.
   assert (Tnone : alookup N.eqb c (st_temps st1) = None).
   { destruct (alookup N.eqb c (st_temps st1)) as [s|] eqn:T; [|reflexivity].
     pose proof (i_t1 _ C c s T) as A. pose proof (i_s2 _ C (KTemp c) s c T A) as S. congruence. }
-  split; [|split].
+  split.
   - constructor.
     + destruct (i_wf _ C) as (Wt & Ws & Wr). unfold wf, st'; cbn [st_temps st_stored st_retained]. repeat split; auto.
       apply (nodup_aset N.eqb N.eqb_eq); exact Wt.
     + exact (i_act_nd _ C).
-    + exact (i_closing _ C).
     + intros x k Hs. rewrite Sess' in Hs. rewrite Ecid_of. change (st_term st') with (st_term st1).
       destruct (x =? c) eqn:E.
       * apply N.eqb_eq in E; subst x. injection Hs as <-. split; [exact NT|]. split; [left; reflexivity|].
@@ -451,9 +435,6 @@ Proof.
       * apply N.eqb_eq in E; subst x. unfold st1, with_cid; cbn [st_cid]. rewrite (alookup_aset N.eqb N.eqb_eq), N.eqb_refl. discriminate.
       * exact (i_cid _ C x Hx).
     + exact (i_closed _ C).
-  - intros x Hx. rewrite Sess'. change (st_term st') with (st_term st). destruct (x =? c) eqn:E; [left; discriminate|].
-    change (st_cid st') with (aset N.eqb c [] (st_cid st)) in Hx. rewrite (alookup_aset N.eqb N.eqb_eq), E in Hx.
-    destruct (Fi x Hx) as [X|[X|[p [X _]]]]; [left; exact X|right; left; exact X|congruence].
   - intros p Hp. discriminate.
 Qed.
 
@@ -496,44 +477,39 @@ Qed.
 
 Lemma inv_setup st c id clean : Inv st -> Inv (snd (setup st c id clean)).
 Proof.
-  intros I. pose proof I as (C0 & Fi & Pe). unfold setup.
+  intros I. pose proof I as (C0 & Pe). unfold setup.
   destruct (st_pending st) eqn:P; [exact I|].
   destruct (alookup N.eqb c (st_cid st)) eqn:H; [exact I|].
-  cbn [st_closing]. rewrite (i_closing _ C0).
-  change (St (st_cap st) (st_stored st) (st_temps st) (st_active st) (st_retained st) false
-             (st_sess st) (aset N.eqb c id (st_cid st)) (st_dying st) (st_closed st) (st_term st) None)
-    with (St (st_cap st) (st_stored st) (st_temps st) (st_active st) (st_retained st) false
-             (st_sess st) (aset N.eqb c id (st_cid st)) (st_dying st) (st_closed st) (st_term st) None).
-  assert (Est1 : St (st_cap st) (st_stored st) (st_temps st) (st_active st) (st_retained st) false
-             (st_sess st) (aset N.eqb c id (st_cid st)) (st_dying st) (st_closed st) (st_term st) None = with_cid st c id).
-  { unfold with_cid. rewrite (i_closing _ C0). reflexivity. }
-  rewrite Est1.
+  cbn [st_closing].
   pose proof (core_with_cid st c id C0 P H) as C.
   destruct (fresh_conn st c C0 H) as [NS NT].
+  destruct (st_closing st) eqn:CL.
+  { (* the backend is closing: the connection is refused, only its client id has been recorded *)
+    cbn [snd].
+    assert (E : St (st_cap st) (st_stored st) (st_temps st) (st_active st) (st_retained st) true
+               (st_sess st) (aset N.eqb c id (st_cid st)) (st_dying st) (st_closed st) (st_term st) None = with_cid st c id)
+      by (unfold with_cid; rewrite CL; reflexivity).
+    rewrite E. split; [exact C|]. intros p Hp; discriminate. }
+  assert (Est1 : St (st_cap st) (st_stored st) (st_temps st) (st_active st) (st_retained st) false
+             (st_sess st) (aset N.eqb c id (st_cid st)) (st_dying st) (st_closed st) (st_term st) None = with_cid st c id).
+  { unfold with_cid. rewrite CL. reflexivity. }
+  rewrite Est1.
   destruct (is_nil id) eqn:Hid.
   - destruct id; [|discriminate]. cbn [snd]. pose proof (inv_setup_empty st c I P H) as X. cbv zeta in X.
     unfold with_cid in X |- *.
     cbn [st_cap st_stored st_temps st_active st_retained st_closing st_sess st_cid st_dying st_closed st_term] in X |- *.
-    rewrite (i_closing _ C0) in X. exact X.
+    rewrite CL in X. exact X.
   - apply is_nil_false in Hid.
     assert (CIDc : alookup N.eqb c (st_cid (with_cid st c id)) = Some id).
     { unfold with_cid; cbn [st_cid]. rewrite (alookup_aset N.eqb N.eqb_eq), N.eqb_refl. reflexivity. }
-    assert (FinOthers : forall x, alookup N.eqb x (st_cid (with_cid st c id)) <> None -> x <> c ->
-              sess_of (with_cid st c id) x <> None \/ mem_n x (st_term (with_cid st c id)) = true).
-    { intros x Hx Hne. unfold with_cid in Hx; cbn [st_cid] in Hx. rewrite (alookup_aset N.eqb N.eqb_eq), (n_neq_eqb _ _ Hne) in Hx.
-      destruct (Fi x Hx) as [X|[X|[p [X _]]]]; [left; exact X|right; exact X|congruence]. }
     destruct (existing_session (with_cid st c id) id) as [s|] eqn:E.
     + destruct s as [su tq sq [c1|]] eqn:Es.
       * (* takeover: wait for c1 *)
         cbn [snd]. unfold set_pending.
-        split; [|split].
-        -- constructor; try exact (i_wf _ C); try exact (i_act_nd _ C); try exact (i_closing _ C);
+        split.
+        -- constructor; try exact (i_wf _ C); try exact (i_act_nd _ C);
              try exact (i_s1 _ C); try exact (i_s2 _ C); try exact (i_ac1 _ C); try exact (i_ac2 _ C);
              try exact (i_x _ C); try exact (i_st _ C); try exact (i_t1 _ C); try exact (i_cid _ C); try exact (i_closed _ C).
-        -- intros x Hx. change (alookup N.eqb x (st_cid (with_cid st c id)) <> None) in Hx.
-           destruct (N.eq_dec x c) as [->|Hne].
-           ++ right; right. eexists; split; [reflexivity|reflexivity].
-           ++ destruct (FinOthers x Hx Hne) as [X|X]; [left; exact X|right; left; exact X].
         -- intros p Hp. cbn [st_pending] in Hp. injection Hp as <-. cbn [p_id p_conn p_old].
            split; [exact Hid|]. split; [exact CIDc|]. split; [exact NS|]. split; [exact NT|].
            exact (existing_owner _ id _ c1 C Hid E eq_refl).
@@ -546,15 +522,26 @@ Qed.
 (* ------------------------------------------------------------------ SetupEnd (the old connection has closed) *)
 Lemma inv_setup_end st : Inv st -> Inv (snd (setup_end st false)).
 Proof.
-  intros I. pose proof I as (C & Fi & Pe). unfold setup_end.
+  intros I. pose proof I as (C & Pe). unfold setup_end.
   destruct (st_pending st) as [p|] eqn:P; [|exact I].
   destruct (mem_n (p_old p) (st_closed st)) eqn:Cl; [|exact I].
   destruct (Pe p P) as (P1 & P2 & P3 & P4 & P5).
   apply inv_setup_finish. constructor; auto.
-  - intros c' k Hs Hc. pose proof (P5 c' k Hs Hc) as ->.
-    destruct (i_s1 _ C (p_old p) k Hs) as (NT & _). rewrite (i_closed _ C _ Cl) in NT. discriminate.
-  - intros c' Hc Hne. destruct (Fi c' Hc) as [X|[X|[p' [X1 X2]]]]; auto.
-    rewrite P in X1; injection X1 as E1. subst p'. exfalso; apply Hne; symmetry; exact X2.
+  intros c' k Hs Hc. pose proof (P5 c' k Hs Hc) as ->.
+  destruct (i_s1 _ C (p_old p) k Hs) as (NT & _). rewrite (i_closed _ C _ Cl) in NT. discriminate.
+Qed.
+
+(* a kill timeout only gives up the wait; backend Close only sets the flag and closes the connections *)
+Lemma inv_forget st pend dy cl :
+  Inv st -> (pend = st_pending st \/ pend = None) ->
+  Inv (St (st_cap st) (st_stored st) (st_temps st) (st_active st) (st_retained st) cl (st_sess st) (st_cid st)
+          dy (st_closed st) (st_term st) pend).
+Proof.
+  intros (C & Pe) Hp. split.
+  - constructor; try exact (i_wf _ C); try exact (i_act_nd _ C);
+      try exact (i_s1 _ C); try exact (i_s2 _ C); try exact (i_ac1 _ C); try exact (i_ac2 _ C);
+      try exact (i_x _ C); try exact (i_st _ C); try exact (i_t1 _ C); try exact (i_cid _ C); try exact (i_closed _ C).
+  - intros p H. cbn [st_pending] in H. destruct Hp as [-> | ->]; [exact (Pe p H)|discriminate].
 Qed.
 
 (* ------------------------------------------------------------------ MarkClosed *)
@@ -568,22 +555,89 @@ Proof.
 Qed.
 
 (* ------------------------------------------------------------------ Terminate *)
+Lemma aremove_absent {K V} (eqb : K -> K -> bool) (k : K) (l : list (K * V)) :
+  alookup eqb k l = None -> aremove eqb k l = l.
+Proof.
+  induction l as [|[k0 v0] l IH]; cbn [alookup aremove]; [reflexivity|].
+  destruct (eqb k k0); [discriminate|]. intros H. rewrite (IH H). reflexivity.
+Qed.
+
 Lemma inv_terminate st c : Inv st -> Inv (snd (terminate st c)).
 Proof.
-  intros I. pose proof I as (C & Fi & Pe). unfold terminate.
-  destruct (alookup N.eqb c (st_cid st)) as [id|] eqn:CID; [|exact I].
-  destruct (mem_n c (st_term st)) eqn:T; [exact I|]. cbn [orb].
-  destruct (match st_pending st with Some p => p_conn p =? c | None => false end) eqn:PC; [exact I|].
-  (* c holds a session *)
-  assert (HS : sess_of st c <> None).
-  { destruct (Fi c) as [X|[X|[p [X1 X2]]]]; [congruence|exact X|congruence|].
-    rewrite X1 in PC. subst c. rewrite N.eqb_refl in PC; discriminate. }
-  apply neq_none_some in HS as [k HS].
+  intros I. pose proof I as (C & Pe).
+  pose proof (wf_step st (OTerminate c) (i_wf _ C)) as W'. cbn [step] in W'. revert W'. unfold terminate.
+  destruct (alookup N.eqb c (st_cid st)) as [id|] eqn:CID; [|intros _; exact I].
+  destruct (mem_n c (st_term st)) eqn:T; [intros _; exact I|]. cbn [orb].
+  destruct (match st_pending st with Some p => p_conn p =? c | None => false end) eqn:PC; [intros _; exact I|].
   assert (CIDc : cid_of st c = id) by (unfold cid_of; rewrite CID; reflexivity).
+  fold (sess_of st c).
+  destruct (sess_of st c) as [k|] eqn:HS.
+  2:{ (* the Setup of c failed: it holds no session and is not registered; only its own bookkeeping changes *)
+    assert (NA : option_eqb N.eqb (alookup bytes_eqb id (st_active st)) (Some c) = false).
+    { destruct (alookup bytes_eqb id (st_active st)) as [x|] eqn:A; [|reflexivity]. cbn.
+      destruct (x =? c) eqn:E; [|reflexivity]. apply N.eqb_eq in E; subst x.
+      destruct (i_ac1 _ C id c A) as (_ & _ & H3). congruence. }
+    rewrite NA. cbn [snd]. intros W'.
+    assert (Tnone : alookup N.eqb c (st_temps st) = None).
+    { destruct (alookup N.eqb c (st_temps st)) as [s0|] eqn:L; [|reflexivity].
+      pose proof (i_t1 _ C c s0 L) as A0. pose proof (i_s2 _ C (KTemp c) s0 c L A0) as S0. congruence. }
+    set (st' := St _ _ _ _ _ _ _ _ _ _ _ _) in *.
+    assert (Sess' : forall x, sess_of st' x = sess_of st x).
+    { intros x. unfold sess_of, st'. cbn [st_sess]. rewrite (alookup_aremove N.eqb N.eqb_eq).
+      destruct (x =? c) eqn:E; [apply N.eqb_eq in E; subst x; symmetry; exact HS|reflexivity]. }
+    assert (Term' : forall x, mem_n x (st_term st') = (x =? c) || mem_n x (st_term st)).
+    { intros x. unfold st'. cbn [st_term]. apply mem_add_n. }
+    assert (Get' : forall k', get_session st' k' = get_session st k').
+    { intros [x|i]; cbn [get_session]; unfold st'; cbn [st_temps st_stored]; [|reflexivity].
+      rewrite (alookup_aremove N.eqb N.eqb_eq). destruct (x =? c) eqn:E; [apply N.eqb_eq in E; subst x; symmetry; exact Tnone|reflexivity]. }
+    assert (Live : forall x, sess_of st x <> None -> (x =? c) = false).
+    { intros x Hx. destruct (x =? c) eqn:E; [|reflexivity]. apply N.eqb_eq in E; subst x. congruence. }
+    split.
+    - constructor.
+      + exact W'.
+      + exact (i_act_nd _ C).
+      + intros x k' Hx. rewrite Sess' in Hx. destruct (i_s1 _ C x k' Hx) as (H1 & H2 & s1 & G1 & A1).
+        rewrite Term', (Live x) by congruence. cbn [orb]. split; [exact H1|]. split; [exact H2|].
+        exists s1. rewrite Get'. auto.
+      + intros k' s' x G' A'. rewrite Get' in G'. rewrite Sess'. exact (i_s2 _ C k' s' x G' A').
+      + intros i x Ha. rewrite Sess'. exact (i_ac1 _ C i x Ha).
+      + intros x k' Hx Hn. rewrite Sess' in Hx. exact (i_ac2 _ C x k' Hx Hn).
+      + intros i x Hst Hx. rewrite Sess' in Hx. exact (i_x _ C i x Hst Hx).
+      + exact (i_st _ C).
+      + intros x s' L. change (get_session st' (KTemp x) = Some s') in L. rewrite Get' in L. exact (i_t1 _ C x s' L).
+      + intros x Hx. rewrite Sess', Term' in Hx. change (st_cid st') with (st_cid st).
+        destruct (x =? c) eqn:E; [apply N.eqb_eq in E; subst x; congruence|]. cbn [orb] in Hx. exact (i_cid _ C x Hx).
+      + intros x Hx. change (st_closed st') with (st_closed st) in Hx. rewrite Term', (i_closed _ C x Hx). apply orb_true_r.
+    - intros p Hp. change (st_pending st') with (st_pending st) in Hp. destruct (Pe p Hp) as (P1 & P2 & P3 & P4 & P5).
+      rewrite Hp in PC. split; [exact P1|]. split; [exact P2|]. rewrite Sess', Term', PC. cbn [orb].
+      split; [exact P3|]. split; [exact P4|].
+      intros x k' Hx Hc. rewrite Sess' in Hx. exact (P5 x k' Hx Hc). }
+  (* c holds session k, which still names it, and it is the registered connection of its id (if it has one):
+     Terminate releases exactly that *)
   destruct (i_s1 _ C c k HS) as (_ & Sh & s & G & A).
-  pose proof (wf_step st (OTerminate c) (i_wf _ C)) as W'. cbn [step] in W'. unfold terminate in W'.
-  rewrite CID, T, PC in W'. cbn [orb snd] in W'.
-  cbn [snd]. fold (sess_of st c) in *. rewrite HS in *.
+  assert (Eact : (if option_eqb N.eqb (alookup bytes_eqb id (st_active st)) (Some c)
+                  then aremove bytes_eqb id (st_active st) else st_active st) = aremove bytes_eqb id (st_active st)).
+  { destruct id as [|b0 id'].
+    - assert (X : alookup bytes_eqb [] (st_active st) = None).
+      { destruct (alookup bytes_eqb [] (st_active st)) as [x|] eqn:E; [|reflexivity].
+        destruct (i_ac1 _ C [] x E) as (H1 & _). exfalso; apply H1; reflexivity. }
+      rewrite X. cbn [option_eqb]. symmetry. apply aremove_absent. exact X.
+    - assert (Hn : cid_of st c <> []) by (rewrite CIDc; discriminate).
+      pose proof (i_ac2 _ C c k HS Hn) as X. rewrite CIDc in X. rewrite X. cbn [option_eqb]. rewrite N.eqb_refl. reflexivity. }
+  assert (Estored : match k with
+                    | KStored i => match alookup bytes_eqb i (st_stored st) with
+                                   | Some s0 => if option_eqb N.eqb (s_act s0) (Some c)
+                                                then aset bytes_eqb i (Sess (s_subs s0) (s_tq s0) (s_sq s0) None) (st_stored st)
+                                                else st_stored st
+                                   | None => st_stored st end
+                    | KTemp _ => st_stored st end =
+                    match k with
+                    | KStored i => match alookup bytes_eqb i (st_stored st) with
+                                   | Some s0 => aset bytes_eqb i (Sess (s_subs s0) (s_tq s0) (s_sq s0) None) (st_stored st)
+                                   | None => st_stored st end
+                    | KTemp _ => st_stored st end).
+  { destruct k as [x|i]; [reflexivity|]. cbn [get_session] in G. rewrite G, A. cbn [option_eqb]. rewrite N.eqb_refl. reflexivity. }
+  rewrite Eact, Estored. cbn [snd]. intros W'.
   set (stored' := match k with
                   | KStored i => match alookup bytes_eqb i (st_stored st) with
                                  | Some s0 => aset bytes_eqb i (Sess (s_subs s0) (s_tq s0) (s_sq s0) None) (st_stored st)
@@ -621,11 +675,10 @@ Proof.
   (* another connection never shares k *)
   assert (Other : forall x k', x <> c -> sess_of st x = Some k' -> k' <> k).
   { intros x k' Hne Hx ->. destruct (i_s1 _ C x k Hx) as (_ & _ & s1 & G1 & A1). congruence. }
-  split; [|split].
+  split.
   - constructor.
     + exact W'.
     + unfold st'; cbn [st_active]. apply (nodup_aremove bytes_eqb bytes_eqb_eq). exact (i_act_nd _ C).
-    + exact (i_closing _ C).
     + intros x k' Hx. rewrite Sess' in Hx. destruct (x =? c) eqn:E; [discriminate|]. apply N.eqb_neq in E.
       destruct (i_s1 _ C x k' Hx) as (H1 & H2 & s1 & G1 & A1).
       rewrite Term', (n_neq_eqb _ _ E), Ecid_of. cbn [orb]. split; [exact H1|]. split; [exact H2|].
@@ -660,8 +713,6 @@ Proof.
     + intros x Hx. rewrite Sess', Term' in Hx. change (st_cid st') with (st_cid st).
       destruct (x =? c) eqn:E; [apply N.eqb_eq in E; subst x; congruence|]. cbn [orb] in Hx. exact (i_cid _ C x Hx).
     + intros x Hx. change (st_closed st') with (st_closed st) in Hx. rewrite Term', (i_closed _ C x Hx). apply orb_true_r.
-  - intros x Hx. change (st_cid st') with (st_cid st) in Hx. rewrite Sess', Term'. change (st_pending st') with (st_pending st).
-    destruct (x =? c) eqn:E; [right; left; reflexivity|]. cbn [orb]. exact (Fi x Hx).
   - intros p Hp. change (st_pending st') with (st_pending st) in Hp. destruct (Pe p Hp) as (P1 & P2 & P3 & P4 & P5).
     rewrite Hp in PC. split; [exact P1|]. split; [exact P2|]. rewrite Sess', Term', PC. cbn [orb].
     split; [exact P3|]. split; [exact P4|].
@@ -669,19 +720,15 @@ Proof.
 Qed.
 
 (* ------------------------------------------------------------------ every step, every history *)
-Definition benign (o : op) : bool :=
-  match o with
-  | OSetupEnd true => false      (* kill timeout *)
-  | OClose => false              (* backend shutdown: later Setups fail with ErrClosing *)
-  | _ => true
-  end.
-
-Lemma inv_step st o : benign o = true -> Inv st -> Inv (snd (step st o)).
+Lemma inv_step st o : Inv st -> Inv (snd (step st o)).
 Proof.
-  intros B I. pose proof (i_wf _ (proj1 I)) as W.
+  intros I. pose proof (i_wf _ (proj1 I)) as W.
   destruct o as [c id clean|t|c|c subs b|c fs|c m got|c t|c|]; cbn [step].
   - apply inv_setup; exact I.
-  - destruct t; [discriminate|]. apply inv_setup_end; exact I.
+  - destruct t; [|apply inv_setup_end; exact I].
+    (* kill timeout: the wait is given up, nothing else changes *)
+    unfold setup_end. destruct (st_pending st) as [p|]; [|exact I]. cbn [snd]. unfold set_pending.
+    apply inv_forget; [exact I|right; reflexivity].
   - apply inv_mark_closed; exact I.
   - unfold subscribe. destruct (session_of st c) as [[k s]|] eqn:S; [|exact I].
     destruct (negb _); [exact I|]. cbn [snd].
@@ -693,15 +740,15 @@ Proof.
     destruct t; [destruct (s_tq s)|destruct (s_sq s)]; try exact I; cbn [snd];
       apply (inv_frame st _ I); apply (frame_put st k s _ W (session_of_get _ _ _ _ S)); reflexivity.
   - apply inv_terminate; exact I.
-  - discriminate.
+  - (* backend Close: the flag is set and the active connections are closed *)
+    unfold close_backend. cbn [snd]. apply inv_forget; [exact I|left; reflexivity].
 Qed.
 
-Lemma inv_run ops : forall st, forallb benign ops = true -> Inv st -> Inv (run_state st ops).
+Lemma inv_run ops : forall st, Inv st -> Inv (run_state st ops).
 Proof.
-  unfold run_state. induction ops as [|o ops IH]; intros st B I; cbn [run snd]; [exact I|].
-  cbn [forallb] in B. apply andb_true_iff in B as [B1 B2].
-  pose proof (inv_step st o B1 I) as I1. destruct (step st o) as [r st1]; cbn [snd] in I1.
-  specialize (IH st1 B2 I1). destruct (run st1 ops) as [rs st2]; cbn [snd] in *. exact IH.
+  unfold run_state. induction ops as [|o ops IH]; intros st I; cbn [run snd]; [exact I|].
+  pose proof (inv_step st o I) as I1. destruct (step st o) as [r st1]; cbn [snd] in I1.
+  specialize (IH st1 I1). destruct (run st1 ops) as [rs st2]; cbn [snd] in *. exact IH.
 Qed.
 
 Lemma skey_opt_eqb_refl k : option_eqb skey_eqb (Some k) (Some k) = true.
@@ -709,7 +756,7 @@ Proof. cbn. apply skey_eqb_refl. Qed.
 
 Lemma inv_unique st : Inv st -> unique_ok st = true.
 Proof.
-  intros (C & _ & _). unfold unique_ok. rewrite !andb_true_iff. split; [split|].
+  intros (C & _). unfold unique_ok. rewrite !andb_true_iff. split; [split|].
   - apply nodup_keys_iff. exact (i_act_nd _ C).
   - apply forallb_forall. intros [id c] Hin. cbn [fst snd].
     pose proof (In_alookup bytes_eqb bytes_eqb_eq id c _ (i_act_nd _ C) Hin) as A.
@@ -725,10 +772,9 @@ Proof.
     apply is_nil_false in E. rewrite (i_ac2 _ C c k S E). apply act_eqb_refl.
 Qed.
 
-(* C13, state part: after every history without kill timeout and without backend Close, client id ->
-   active connection is a partial function, every entry names the connection that holds the session of
-   that id, and a session's active connection is a live one that holds exactly that session and is the
-   registered connection of its client id. *)
-Theorem unique_state cap ops :
-  forallb benign ops = true -> unique_ok (run_state (init cap) ops) = true.
-Proof. intros B. apply inv_unique, inv_run; [exact B|apply inv_init]. Qed.
+(* C13, state part: after EVERY history (kill timeouts, failed Setups and backend Close included), client id ->
+   active connection is a partial function, every entry names the connection that holds the session of that id, and
+   a session's active connection is a live one that holds exactly that session and is the registered connection of
+   its client id. *)
+Theorem unique_state cap ops : unique_ok (run_state (init cap) ops) = true.
+Proof. apply inv_unique, inv_run, inv_init. Qed.
